@@ -82,10 +82,12 @@ package hub
 //@   atcall ServicePairingDetailUpdate [C18] N3-stored: @K() in h.remoteServices && $1 == h.remoteServices[@K()].connectionStateDetail
 //@   modifies *
 
-//@ func (h *Hub).UnregisterRemoteSKI(ski) entry [C15,C10]
-//@   ensures [C10] D2-untrusted: @K() in h.remoteServices && !h.remoteServices[@K()].trusted && h.remoteServices[@K()].connectionStateDetail.state == api.ConnectionStateNone
+// (C01: revoking trust must also end the connection that was allowed because of it - otherwise a handshake waiting in
+// READY_LISTEN goes on to HELLO_OK and stores trust again)
+//@ func (h *Hub).UnregisterRemoteSKI(ski) entry [C15,C10,C01]
+//@   ensures [C10,C01] D2-untrusted: @K() in h.remoteServices && !h.remoteServices[@K()].trusted && h.remoteServices[@K()].connectionStateDetail.state == api.ConnectionStateNone
 //@   ensures [C10,C15] D2-counter: !(@K() in h.connectionAttemptCounter)
-//@   ensures [C15] U1-closed: @K() in old(h.connections) ==> old(h.connections[@K()]).$closeCalls == old(h.connections[@K()].$closeCalls) + 1 && old(h.connections[@K()]).$lastSafe && old(h.connections[@K()]).$lastCode == 4500
+//@   ensures [C15,C01] U1-closed: @K() in old(h.connections) ==> old(h.connections[@K()]).$closeCalls == old(h.connections[@K()].$closeCalls) + 1 && old(h.connections[@K()]).$lastSafe && old(h.connections[@K()]).$lastCode == 4500
 //@   ensures [C15] U2-others: @RSFRAME(h) && (forall j: string :: j != @K() ==> $Trusted[j] == old($Trusted[j]))
 //@   atcall ServicePairingDetailUpdate [C15] U3-callback: $0 == @K()
 //@   atcall ServicePairingDetailUpdate [C18] N3-stored: @K() in h.remoteServices && $1 == h.remoteServices[@K()].connectionStateDetail
@@ -120,6 +122,9 @@ package hub
 //@   ensures [C11] F2-others: forall j: string :: j != @CK() ==> (j in h.connections) == (j in old(h.connections)) && h.connections[j] == old(h.connections[j])
 //@   ensures [C11] F2-counter: handshakeCompleted && old(@CK() in h.connections) ==> !(@CK() in h.connectionAttemptCounter)
 //@   atcall RemoteSKIDisconnected [C11] F2-notify: $0 == @CK()
+// the registry has forgotten the closed connection before the application is told: whatever the application does in
+// its callback (a new connection to the same SKI may register meanwhile) cannot be undone by a late removal
+//@   atcall RemoteSKIDisconnected [C11] F2-forgotten-first: old(@CK() in h.connections) && old(h.connections[@CK()]).$dataHandler == connection.$dataHandler ==> !(@CK() in h.connections)
 // every reported connection end reaches the application, exactly once - whether or not the handshake had completed
 // (a transport failure on a completed connection is reported with handshakeCompleted == false: ReportConnectionError
 // moves the state to ERROR before it closes)
